@@ -155,6 +155,51 @@ func (g *vgen) stable(v, other *VAA) {
 	fmt.Fprintf(g.w, "eq %s digest-not-double-keccak-of-held-body %x %x\n", g.id("stb"), keepDig.Bytes(), crypto.Keccak256(crypto.Keccak256(keepBody)))
 }
 
+// freshness (C05 / C04 / C06): a VAA value that has already been encoded, hashed or produced by Unmarshal is changed in one body
+// field - in place, the same object - and encoded / hashed again: the new bytes and digest must be those of the changed value
+// (an `enc` / `body` line is emitted for it, compared with the model) and must differ from the old ones.
+func (g *vgen) fresh(v *VAA) {
+	out, err := v.Marshal()
+	if err != nil {
+		return
+	}
+	for _, src := range []string{"used", "decoded"} {
+		var x *VAA
+		if src == "used" {
+			x = vclone(v)
+			_, _ = x.Marshal()
+			_ = x.SigningMsg()
+			_ = x.SerializeBody()
+		} else {
+			var res string
+			x, res = vsafeUnmarshal(out)
+			if res != "ok" {
+				continue
+			}
+			_ = x.SigningMsg()
+		}
+		before, _ := x.Marshal()
+		dBefore := x.SigningMsg().Bytes()
+		switch g.r.Intn(5) {
+		case 0:
+			x.Sequence++
+		case 1:
+			x.Payload[g.r.Intn(len(x.Payload))] ^= 1 << uint(g.r.Intn(8)) // in place: same backing array, same length
+		case 2:
+			x.TargetChain ^= 1
+		case 3:
+			x.Nonce++
+		default:
+			x.Payload = append(x.Payload, 7)
+		}
+		after, _ := x.Marshal()
+		fmt.Fprintf(g.w, "ne %s encoding-ignores-field-change-%s %s %s\n", g.id("frs"), src, vhex(before), vhex(after))
+		fmt.Fprintf(g.w, "ne %s digest-ignores-field-change-%s %x %x\n", g.id("frs"), src, dBefore, x.SigningMsg().Bytes())
+		g.enc(x)
+		g.body(x)
+	}
+}
+
 func (g *vgen) body(v *VAA) {
 	b := v.SerializeBody()
 	kk := crypto.Keccak256(crypto.Keccak256(b))
@@ -391,6 +436,17 @@ func (g *vgen) verifyFamily(keys []vkey, n int, repeats bool) {
 		c = vclone(valid)
 		c.Sequence++
 		g.ver("bodyseq", c, addrs)
+		// the same, on an object whose digest has been computed and whose signatures have been verified before
+		c = vclone(valid)
+		_ = c.SigningMsg()
+		_ = c.VerifySignatures(addrs)
+		c.Payload[r.Intn(len(c.Payload))] ^= 1 << uint(r.Intn(8))
+		g.ver("bodyflip-after-use", c, addrs)
+		c = vclone(valid)
+		_ = c.SigningMsg()
+		_ = c.VerifySignatures(addrs)
+		c.Sequence++
+		g.ver("bodyseq-after-use", c, addrs)
 		// shorter / longer address list
 		g.ver("shortlist", valid, addrs[:idx[len(idx)-1]])
 		g.ver("emptylist", valid, nil)
@@ -415,6 +471,38 @@ func (g *vgen) verifyFamily(keys []vkey, n int, repeats bool) {
 		c = vclone(base)
 		c.Signatures = []*Signature{{Index: uint8(b), Signature: vsign(set2[b], digest)}}
 		g.ver("repeatedkey-single", c, ad2)
+	}
+	if n >= 24 {
+		// a long list in which one guardian's key appears twice, both far down (positions >= 20), preceded by twenty genuine
+		// distinct signers: the second appearance must still be recognised as the same signer
+		a := 20 + r.Intn(n-22)
+		b := a + 1 + r.Intn(n-a-1)
+		set2 := append([]vkey{}, set...)
+		ad2 := append([]common.Address{}, addrs...)
+		if repeats {
+			for i := 0; i < 20; i++ {
+				set2[i] = keys[i%len(keys)]
+				ad2[i] = set2[i].addr
+			}
+		}
+		set2[b] = set2[a]
+		ad2[b] = ad2[a]
+		distinct := map[common.Address]bool{}
+		ok := true
+		for i := 0; i < 20; i++ {
+			if distinct[ad2[i]] || ad2[i] == ad2[a] {
+				ok = false
+			}
+			distinct[ad2[i]] = true
+		}
+		if ok {
+			c := vclone(base)
+			for i := 0; i < 20; i++ {
+				c.Signatures = append(c.Signatures, &Signature{Index: uint8(i), Signature: vsign(set2[i], digest)})
+			}
+			c.Signatures = append(c.Signatures, &Signature{Index: uint8(a), Signature: vsign(set2[a], digest)}, &Signature{Index: uint8(b), Signature: vsign(set2[b], digest)})
+			g.ver("repeatedkey-late", c, ad2)
+		}
 	}
 	// a guardian list that contains the zero address (and other degenerate addresses) together with signature bytes
 	// that do not recover at all: recovery failure must never be taken for "recovers to 0x00..00"
@@ -497,6 +585,9 @@ func TestVerifVaa(t *testing.T) {
 				}
 				if pl <= 1002 {
 					g.stable(v, g.randVAA(ns, 1+g.r.Intn(200)))
+					if round == 0 {
+						g.fresh(v)
+					}
 				}
 				// structured mutations of the valid encoding
 				if pl <= 100 && ns <= 2 {
